@@ -353,6 +353,7 @@ class JordanCurve:
         float(yscale)
         for vertex in self.vertices:
             vertex.scale(xscale, yscale)
+        self.__lenght = None
         return self
 
     def rotate(self, angle: float, degrees: bool = False) -> JordanCurve:
@@ -385,6 +386,7 @@ class JordanCurve:
             angle *= np.pi / 180
         for vertex in self.vertices:
             vertex.rotate(angle)
+        self.__lenght = None
         return self
 
     def invert(self) -> JordanCurve:
